@@ -116,6 +116,7 @@ class Module:
         self.sortnames = kw.get("sortnames", {})
         self.defs = kw.get("defs", {})          # name -> ([argsorts], ret) for functions defined in defs_text
         self.defs_text = kw.get("defs_text", "")  # (define-fun ...) text emitted after declarations
+        self.predeclared_opts = kw.get("predeclared_opts", [])  # Opt sorts whose datatype the prelude declares itself
         self.hooks = kw.get("hooks", {})       # binop / cmp / subscript / hetero_list / dict / isinstance
         self.skip_calls = kw.get("skip_calls", ["self.log", "logger.", "log.", "warnings.warn", "print"])
 
@@ -234,6 +235,10 @@ class EngineBase:
 
     def coerce(self, t, sort, what=""):
         """bring t to `sort` (exactly, via Opt wrapping, or by havoc with a note)"""
+        if "coerce" in self.m.hooks:
+            h = self.m.hooks["coerce"](self, t, sort)
+            if h is not None:
+                return h
         if isinstance(t, EmptyV):
             if isinstance(sort, tuple) and sort[0] in ("Map", "Set", "Seq", "Array"):
                 return self.empty_of(sort)
